@@ -105,6 +105,13 @@ func c18Table16(n int) {
 	for i := 2; i < n/2; i++ {
 		vp.Assert(t.ClusterValue(uint32(i)) == uint32(binary.LittleEndian.Uint16(b[2*i:])), "entry decoded per the 16-bit layout")
 	}
+	// contract the chain walker relies on: it rejects links above MaxCluster() and indexes every other value
+	idx := vp.U32("idx")
+	vp.Assume(idx <= t.MaxCluster())
+	vp.NoPanic()
+	_ = t.ClusterValue(idx)
+	t.SetCluster(idx, t.EOCMarker())
+	vp.AllowPanic()
 	vp.Cover("table decoded")
 }
 
